@@ -1,114 +1,174 @@
-import PdfModel.Model.OpenGlue
+import PdfModel.Model.OpenConcrete
 import PdfModel.Lemmas.TotalXrefTable
 import PdfModel.Lemmas.TotalOpen
 
-/-! The concrete parser instance `tableOnlyParsers` meets `Offsets.Total`: the hypotheses of the open-path
-    theorems are discharged by the totality theorems of the byte-level parser models. -/
+/-! The concrete parser instance `Offsets.coreParsers` (both section formats, objects, object-stream members) meets
+    `Offsets.TotalOn`: the hypotheses of the open-path theorems are discharged by the totality theorems of the
+    byte-level models, for every file of a size a slice can have. -/
 
-namespace PdfLex
+namespace Offsets
+open PdfLex
 
 variable {R : Type}
 
-theorem mem_pairsFrom (i : Nat) (es : List Xref.XRef) : ∀ p ∈ Xref.pairsFrom i es, p.2 ∈ es := by
-  induction es generalizing i with
-  | nil => intro p hp; simp [Xref.pairsFrom] at hp
-  | cons e es ih =>
-    intro p hp
-    simp only [Xref.pairsFrom, List.mem_cons] at hp
-    rcases hp with rfl | hp
-    · simp
-    · exact List.mem_cons_of_mem _ (ih (i + 1) p hp)
+def isizeMax : Nat := 9223372036854775807
 
-theorem subsOk_pairsOK (secs : List Xref.Sub) (h : SubsOk secs) : Xref.pairsOK (Xref.secPairs secs) := by
-  intro p hp
-  simp only [Xref.secPairs, List.mem_flatMap] at hp
-  obtain ⟨s, hs, hps⟩ := hp
-  exact h s hs p.2 (mem_pairsFrom s.first s.entries p hps)
+theorem realSize_of_len {s : List UInt8} (h : s.length ≤ isizeMax) : RealSize s.toArray := by
+  unfold RealSize; unfold isizeMax at h; simpa using h
+
+theorem asUnsigned_returns (v : Prim R) : (XrefTable.asUnsigned v).Returns := by
+  unfold XrefTable.asUnsigned
+  split
+  · split
+    · exact returns_ok _
+    · exact returns_err
+  · exact returns_err
 
 theorem asNat_returns (v : Prim R) : (asNat v).Returns := by
   unfold asNat
   split
   · split
-    · exact Offsets.returns_ok _
-    · exact Offsets.returns_err
-  · exact Offsets.returns_err
+    · exact returns_ok _
+    · exact returns_err
+  · exact returns_err
 
-theorem realSize_of_list {s : List UInt8} (h : ¬ s.length > isizeMax) : RealSize s.toArray := by
-  unfold RealSize; unfold isizeMax at h; simp; omega
+theorem toObjParse_returns (r : Out (((Nat × Nat) × Prim R) × Nat)) (h : Ret r) : (toObjParse r).Returns := by
+  rcases h with he | ⟨a, ha⟩
+  · rw [he]; exact returns_err
+  · rw [ha]; unfold toObjParse
+    split <;> first | exact returns_ok _ | exact returns_err | (rename_i hh; cases hh)
 
-/-- the parser parameters of the open path, instantiated with the byte-level models, are total -/
-theorem tableOnlyParsers_total (env : Env R) (henv : EnvOk env) : Offsets.Total (tableOnlyParsers env) where
+theorem omap_returns {α β : Type} (f : α → β) (r : Out α) (h : Ret r) : (PdfShift.omap f r).Returns := by
+  rcases h with he | ⟨a, ha⟩
+  · rw [he]; exact returns_err
+  · rw [ha]; exact returns_ok _
+
+/-- what the parameters have to do: return `Ok` or `Err`; what a filter chain delivers is a `Vec` -/
+structure ParamsOk (env : Env R) (typed : Dict R → Out XrefTable.XInfo) (sdata : Dict R → StreamInner → Out (List UInt8))
+    (dec : Dict R → OffLex.Bytes → Out OffLex.Bytes) (S : OffLex.Bytes → List (Out (Obj (Prim R)))) : Prop where
+  env : EnvOk env
+  typed : ∀ d, Ret (typed d)
+  sdata : ∀ d i, Ret (sdata d i)
+  dec : ∀ d raw, Ret (dec d raw) ∧ ∀ out, dec d raw = .ok out → out.length ≤ isizeMax
+  scan : ∀ s, ∀ it ∈ S s, it.Returns
+
+/-- the stream-format reader `coreParsers` hands to the dispatcher -/
+def stmOf (env : Env R) (typed : Dict R → Out XrefTable.XInfo) (sdata : Dict R → StreamInner → Out (List UInt8))
+    (allowErr : Bool) : Buf → Nat → Out (List Xref.Sub × Dict R) :=
+  fun b p => XrefTable.parseXrefStreamAndTrailer env typed sdata allowErr b (PdfLex.defaultFuel b) p
+
+theorem coreParsers_xrefAt (env : Env R) (typed) (sdata) (allowErr : Bool) (dec) (S) (n : Nat) (sfx : OffLex.Bytes) :
+    (coreParsers env typed sdata allowErr dec S n).xrefAt sfx = XrefTable.xrefAt env (stmOf env typed sdata allowErr) sfx := rfl
+
+theorem coreParsers_decode (env : Env R) (typed) (sdata) (allowErr : Bool) (dec) (S) (n : Nat) (v : Prim R) (raw : OffLex.Bytes) :
+    (coreParsers env typed sdata allowErr dec S n).decode v raw = (match v with | .dict d => dec d raw | _ => .err) := rfl
+
+theorem coreParsers_objAt (env : Env R) (typed) (sdata) (allowErr : Bool) (dec) (S) (n : Nat) (fl : Flags) (sfx : OffLex.Bytes) :
+    (coreParsers env typed sdata allowErr dec S n).objAt fl sfx =
+      toObjParse (parseIndirectObject { env with fileOffset := 0 } sfx.toArray (3 * n + 64) 0 (flagsNat fl)) := rfl
+
+/-- **the concrete parsers of the open path are total** on every file of at most `isize::MAX` bytes, strict and
+    tolerant -/
+theorem coreParsers_total (env : Env R) (typed : Dict R → Out XrefTable.XInfo)
+    (sdata : Dict R → StreamInner → Out (List UInt8)) (allowErr : Bool)
+    (dec : Dict R → OffLex.Bytes → Out OffLex.Bytes) (S : OffLex.Bytes → List (Out (Obj (Prim R)))) (n : Nat)
+    (hn : n ≤ isizeMax) (hp : ParamsOk env typed sdata dec S) :
+    TotalOn (coreParsers env typed sdata allowErr dec S n) n where
   xrefAt := by
-    intro sfx
-    show (if sfx.length > isizeMax then Out.err else _ : Out _).Returns
-    split
-    · exact Offsets.returns_err
-    · rename_i hsz
-      rcases readXrefAt_spec env henv sfx.toArray (realSize_of_list hsz) 0 (Nat.zero_le _) with he | ⟨r, p, hp, _, _⟩
-      · rw [he]; exact Offsets.returns_err
-      · rw [hp]; cases r <;> first | exact Offsets.returns_ok _ | exact Offsets.returns_err
+    intro sfx hl
+    rw [coreParsers_xrefAt]
+    unfold XrefTable.xrefAt
+    rcases XrefTable.readXrefAndTrailerAt_total env hp.env (stmOf env typed sdata allowErr)
+        (XrefTable.parseXrefStreamAndTrailer_total env hp.env typed hp.typed sdata hp.sdata allowErr)
+        sfx.toArray (realSize_of_len (by omega)) 0 (Nat.zero_le _) with he | ⟨subs, d, hr, _⟩
+    · rw [he]; exact returns_err
+    · rw [hr]; exact returns_ok _
   xrefSubs := by
-    intro sfx subs tr hx
-    change (if sfx.length > isizeMax then Out.err else _ : Out _) = _ at hx
-    split at hx
-    · cases hx
-    · rename_i hsz
-      rcases readXrefAt_spec env henv sfx.toArray (realSize_of_list hsz) 0 (Nat.zero_le _) with he | ⟨r, p, hp, _, hsub⟩
-      · rw [he] at hx; cases hx
-      · rw [hp] at hx
-        cases r with
-        | table secs d =>
-          simp only at hx
-          cases hx
-          exact subsOk_pairsOK _ (hsub _ _ rfl)
-        | stream _ _ => cases hx
+    intro sfx subs tr hl hx
+    rw [coreParsers_xrefAt] at hx
+    unfold XrefTable.xrefAt at hx
+    rcases XrefTable.readXrefAndTrailerAt_total env hp.env (stmOf env typed sdata allowErr)
+        (XrefTable.parseXrefStreamAndTrailer_total env hp.env typed hp.typed sdata hp.sdata allowErr)
+        sfx.toArray (realSize_of_len (by omega)) 0 (Nat.zero_le _) with he | ⟨subs', d, hr, hok⟩
+    · rw [he] at hx; cases hx
+    · rw [hr] at hx; cases hx; exact subsOk_pairsOK _ hok
   sizeOf := by
     intro d
-    show (trailerSize d).Returns
-    unfold trailerSize; split
-    · exact asNat_returns _
-    · exact Offsets.returns_err
+    show (XrefTable.trailerSize d).Returns
+    unfold XrefTable.trailerSize; split
+    · exact asUnsigned_returns _
+    · exact returns_err
   prevOf := by
     intro d r hr
-    change trailerPrev d = some r at hr
-    unfold trailerPrev at hr
-    cases hd : dictGet d kwPrev with
-    | none => rw [hd] at hr; cases hr
-    | some v => rw [hd] at hr; simp at hr; rw [← hr]; exact asNat_returns v
+    change XrefTable.trailerPrev d = some r at hr
+    unfold XrefTable.trailerPrev at hr
+    split at hr
+    · cases hr; exact asUnsigned_returns _
+    · cases hr
   objAt := by
-    intro fl sfx
-    show (if sfx.length > isizeMax then Out.err else _ : Out _).Returns
-    split
-    · exact Offsets.returns_err
-    · rename_i hsz
-      have henv' : EnvOk { env with resolveLen := fun _ _ => Out.err } := ⟨fun _ _ => Or.inl rfl, henv.2⟩
-      rcases parseIndirectObject_good _ henv' sfx.toArray (realSize_of_list hsz) (defaultFuel sfx.toArray) 0 (flagsOf fl)
-        (Nat.zero_le _) (by unfold defaultFuel; omega) with he | ⟨v, p, hp, _, _⟩
-      · rw [he]; exact Offsets.returns_err
-      · rw [hp]; obtain ⟨id, v⟩ := v
-        cases v <;> first | exact Offsets.returns_ok _ | exact Offsets.returns_err
+    intro fl sfx hl
+    rw [coreParsers_objAt]
+    apply toObjParse_returns
+    have henv' : EnvOk { env with fileOffset := 0 } := ⟨hp.env.1, hp.env.2⟩
+    exact (parseIndirectObject_good _ henv' sfx.toArray (realSize_of_len (by omega)) (3 * n + 64) 0 (flagsNat fl)
+      (Nat.zero_le _) (by simp; omega)).ret
   objAtInt := by
     intro sfx info rel len h
-    change (if sfx.length > isizeMax then Out.err else _ : Out _) = _ at h
+    rw [coreParsers_objAt] at h
+    unfold toObjParse at h
     split at h
+    · rename_i id info' a b lo hi q hr
+      exact parseIndirectObject_integer_notStream _ sfx.toArray _ 0 (Nat.zero_le _) _ _ _ hr
     · cases h
-    · split at h <;> cases h
-  streamEnd := fun _ => Offsets.returns_err
+    · cases h
+    · cases h
+    · cases h
+  streamEnd := fun _ _ => returns_ok _
   asLen := asNat_returns
-  stmHead := fun _ => Offsets.returns_err
-  decode := fun _ _ => Offsets.returns_err
-  parseMember := by
-    intro fl s
-    show (if s.length > isizeMax then Out.err else _ : Out _).Returns
+  stmHead := by
+    intro v
+    show (match v with
+      | .dict d =>
+        match dictGet d kwN, dictGet d kwFirst with
+        | some n, some f => (asNat n).bind fun n => (asNat f).bind fun f => Out.ok (n, f)
+        | _, _ => .err
+      | _ => .err : Out (Nat × Nat)).Returns
     split
-    · exact Offsets.returns_err
-    · rename_i hsz
-      rcases parseWithLexer_good env henv s.toArray (realSize_of_list hsz) (defaultFuel s.toArray) 0 (flagsOf fl)
-        (Nat.zero_le _) (by unfold defaultFuel; omega) with he | ⟨v, p, hp, _, _⟩
-      · have : parse env s.toArray (flagsOf fl) = .err := he
-        rw [this]; exact Offsets.returns_err
-      · have : parse env s.toArray (flagsOf fl) = .ok (v, p) := hp
-        rw [this]; exact Offsets.returns_ok _
-  scanItems := by intro s it hit; cases hit
+    · split
+      · rename_i nn ff _ _
+        have h1 := asNat_returns nn
+        have h2 := asNat_returns ff
+        cases hn1 : asNat nn with
+        | ok a =>
+          simp only [Out.bind_ok]
+          cases hn2 : asNat ff with
+          | ok b => exact returns_ok _
+          | err => exact returns_err
+          | panic => exact absurd hn2 h2.1
+          | oof => exact absurd hn2 h2.2
+        | err => exact returns_err
+        | panic => exact absurd hn1 h1.1
+        | oof => exact absurd hn1 h1.2
+      · exact returns_err
+    · exact returns_err
+  decode := by
+    intro v raw
+    rw [coreParsers_decode]
+    split
+    · exact (hp.dec _ raw).1.returns
+    · exact returns_err
+  parseMember := by
+    intro fl s v raw data hd hl
+    show (PdfShift.omap Prod.fst (parse { env with fileOffset := 0 } s.toArray (flagsNat fl))).Returns
+    apply omap_returns
+    have hdata : data.length ≤ isizeMax := by
+      rw [coreParsers_decode] at hd
+      split at hd
+      · exact (hp.dec _ raw).2 data hd
+      · cases hd
+    have henv' : EnvOk { env with fileOffset := 0 } := ⟨hp.env.1, hp.env.2⟩
+    exact (parseWithLexer_good _ henv' s.toArray (realSize_of_len (by omega)) (PdfLex.defaultFuel s.toArray) 0
+      (flagsNat fl) (Nat.zero_le _) (by have := defaultFuel_enough s.toArray 0; omega)).ret
+  scanItems := hp.scan
 
-end PdfLex
+end Offsets
